@@ -164,8 +164,15 @@ def check_cases(chk, n_cases):
                 lengths = gen_lengths(chk.rng)
                 lengths = [max(x, 2) for x in lengths]
                 name = f"m{fi}.{ext}"
+                text = render_file(ext, lengths)
+                if chk.rng.random() < 0.15 and ext != "java":
+                    # a file that IS one function at a threshold, with and without its final line break: the number of
+                    # lines of the file equals the function's length (seeded change C02-9: "at most 30 line breaks -> nothing to report")
+                    lengths = [chk.rng.choice([30, 31, 32, 60, 61, 62])]
+                    text = render_file(ext, lengths).rstrip("\n") + chk.rng.choice(["", "\n"])
+                    chk.count("check: file that is exactly one function at a threshold")
                 with open(os.path.join(root, name), "w") as f:
-                    f.write(render_file(ext, lengths))
+                    f.write(text)
                 files.append((name, ext, lengths))
             quiet = chk.rng.random() < 0.5
             code, out = run_check(root, [f[0] for f in files], quiet)
